@@ -162,6 +162,7 @@ struct Stats {
     std::map<std::string, std::string> known_example;
     std::vector<std::string> samples;
     uint64_t violations = 0;
+    bool recording = true;   // false while rapidcheck shrinks a failure
     std::string fail_msg;
     static const size_t kHashCap = 400000;
 };
@@ -172,7 +173,7 @@ struct Ctx {
     bool nontrivial = false;
     Stats *stats = nullptr;
     uint64_t case_no = 0;
-    void count(const std::string &k, uint64_t n = 1) { stats->classes[k] += n; }
+    void count(const std::string &k, uint64_t n = 1) { if (stats->recording) stats->classes[k] += n; }
     std::string path(const std::string &name) const { return work + "/" + name; }
 };
 
@@ -401,6 +402,7 @@ inline int drive(const std::string &prop, const Options &opt, const CaseFn &fn, 
         ctx.stats = &st;
         ctx.case_no = st.evaluations;
         if (failed_once) st.shrink_evaluations++; else st.evaluations++;
+        st.recording = !failed_once;
         std::string fail = run_case(fn, words, ctx, !failed_once);
         if (!fail.empty()) {
             failed_once = true;
